@@ -91,7 +91,17 @@ def main():
                 t["family"] = fam
         else:
             res, mods = None, {}
+            vlib.build_harness()
+            excl = vlib.excluded_families()
+            unavailable = [fam for fam in fams if fam.replace("fam_", "") in excl]
+            for fam in unavailable:
+                print(f"NOTE property={pid} family={fam.replace('fam_', '')} unavailable: its driver does not compile against this tree "
+                      f"(left out of the harness); the other families of this property still run", file=sys.stderr)
+            if len(unavailable) == len(fams):
+                raise vlib.Infra("no family of this property compiles against this tree: " + ", ".join(unavailable))
             for fam in fams:
+                if fam in unavailable:
+                    continue
                 r, mod = family_result(fam, a.tier, seed)
                 mods[fam] = mod
                 for t in r["tags"]:
@@ -171,7 +181,7 @@ def main():
             "drift_tags": sorted({x for t in drift for x in t["tags"] if x.startswith("STRICT_")})[:20],
             "known_findings_observed": sorted(known_hits.keys()),
             "extra": res.get("extra", {}),
-            "family": "+".join(fams), "family_cache_hit": res.get("cache_hit", False), "family_wall_s": res.get("wall_s"),
+            "family": "+".join(fams), "families_unavailable": [] if a.replay else unavailable, "family_cache_hit": res.get("cache_hit", False), "family_wall_s": res.get("wall_s"),
         },
         "assumptions": res.get("assumptions", []),
         "wall_s": round(time.time() - t0, 2),
